@@ -315,12 +315,12 @@ struct LsInfo {                 // what the harness knows about the (truncated) 
 //   (b) Vnull^H x ~ 0                         x has no component in the null space (minimum norm)
 template <class T> static void lsOracle(Case& cs, const std::string& op, const LM& A, const LM& B, const LM& X, const LsInfo& li) {
     if (X.m != A.n || X.n != B.n) { cs.c.viol(cs.key("shape", op), cs.desc().set("got_rows", X.m).set("got_cols", X.n)); return; }
-    if (!finiteOrViol(cs, op, X)) return;
     const LD eps = epsOf<T>(), d = dimf(A.m, A.n);
-    if (li.r == 0) {            // zero matrix: the minimum-norm solution is exactly 0
-        chk(cs, cs.key("lsq", "solve", "zero-matrix"), (double)fro(X), 0.0, [&] { return cs.desc().set("normX", (double)fro(X)); });
+    if (li.r == 0) {            // zero matrix: the minimum-norm solution is exactly 0 (NaN/garbage: same key)
+        chk(cs, cs.key("lsq", "solve", "zero-matrix"), (double)fro(X), 0.0, [&] { return cs.desc().set("normX", (double)fro(X)).set("operation", op); });
         return;
     }
+    if (!finiteOrViol(cs, op, X)) return;
     LM Rm = sub(mul(A, X), B), G = mulH(A, Rm), Nx = li.Vnull.n ? mulH(li.Vnull, X) : LM(0, X.n);
     for (int j = 0; j < B.n; ++j) {
         LD nx = fro(col(X, j)), nb = fro(col(B, j));
@@ -359,7 +359,7 @@ template <class T> static void caseLU(Case& cs) {
     const bool isF = std::is_same<R, float>::value;
     int n = pickSize(r, true);
     cs.m = cs.n = n; cs.shape = n == 0 ? "empty" : n == 1 ? "1x1" : "square";
-    int vk = (int)((cs.idx / 20 + cs.c.args.worker) % V_COUNT), mode = r.integer(0, M_COUNT - 1);
+    int vk = (int)((cs.idx / 20 + (long)(cs.c.args.seed % 15)) % V_COUNT), mode = r.integer(0, M_COUNT - 1);
     cs.view = viewName(vk, ET<T>::cplx); cs.mode = modeName(mode);
     if (n == 0) {
         cs.rankCls = "none";
@@ -439,7 +439,7 @@ template <class T> static void caseLLT(Case& cs) {
     const bool isF = std::is_same<R, float>::value;
     int n = pickSize(r, true);
     cs.m = cs.n = n; cs.shape = n == 0 ? "empty" : n == 1 ? "1x1" : "square";
-    int vk = (int)((cs.idx / 20 + cs.c.args.worker) % V_COUNT), mode = r.integer(0, M_COUNT - 1);
+    int vk = (int)((cs.idx / 20 + (long)(cs.c.args.seed % 15)) % V_COUNT), mode = r.integer(0, M_COUNT - 1);
     cs.view = viewName(vk, ET<T>::cplx); cs.mode = modeName(mode);
     if (n == 0) {
         cs.rankCls = "none"; c.cover("llt:" + cs.et + ":empty:none:none");
@@ -557,7 +557,7 @@ template <class T> static void caseQTZ(Case& cs) {
     typedef typename ET<T>::R R;
     vh::Rng& r = cs.r; vh::Ctx& c = cs.c;
     int m, n; pickShape(cs, m, n, true);
-    int vk = (int)((cs.idx / 60 + cs.c.args.worker) % V_COUNT), mode = r.integer(0, M_COUNT - 1);
+    int vk = (int)((cs.idx / 60 + (long)(cs.c.args.seed % 15)) % V_COUNT), mode = r.integer(0, M_COUNT - 1);
     cs.view = viewName(vk, ET<T>::cplx); cs.mode = modeName(mode);
     if (m == 0 || n == 0) {
         cs.rankCls = "none"; c.cover("qtz:" + cs.et + ":empty:none:none");
@@ -611,7 +611,7 @@ template <class T> static void caseSVD(Case& cs) {
     typedef typename ET<T>::R R;
     vh::Rng& r = cs.r; vh::Ctx& c = cs.c;
     int m, n; pickShape(cs, m, n, true);
-    int vk = (int)((cs.idx / 60 + cs.c.args.worker) % V_COUNT), mode = r.integer(0, M_COUNT - 1);
+    int vk = (int)((cs.idx / 60 + (long)(cs.c.args.seed % 15)) % V_COUNT), mode = r.integer(0, M_COUNT - 1);
     cs.view = viewName(vk, ET<T>::cplx); cs.mode = modeName(mode);
     RectCase rc;
     if (m == 0 || n == 0) { cs.rankCls = "none"; rc.A = LM(m, n); rc.t.m = m; rc.t.n = n; rc.rc = defaultRcond<T>(m, n); }
@@ -695,7 +695,7 @@ template <class T> static void caseEigen(Case& cs) {
     const bool isF = std::is_same<R, float>::value, cplx = ET<T>::cplx;
     int n = pickSize(r, true);
     cs.m = cs.n = n; cs.shape = n == 0 ? "empty" : n == 1 ? "1x1" : "square";
-    int vk = (int)((cs.idx / 20 + cs.c.args.worker) % V_COUNT), mode = r.integer(0, 3);
+    int vk = (int)((cs.idx / 20 + (long)(cs.c.args.seed % 15)) % V_COUNT), mode = r.integer(0, 3);
     static const char* modes[] = {"ctor", "copy-ctor", "assign-temporary", "values-then-vectors"};
     cs.view = viewName(vk, cplx); cs.mode = modes[mode];
     LD scale = pickScale(r, isF);
@@ -749,7 +749,7 @@ template <class T> static void caseEigen(Case& cs) {
         // complex<double>: the output matrix is not resized by the library (Eigen.cpp copyVectors), an
         // unsized output (the documented usage) makes it write through a null pointer. The main path
         // pre-sizes the output; the documented usage is probed in a child process now and then.
-        if (r.coin(0.08)) {
+        if (r.coin(0.04)) {
             c.setPhase("eigen.getAllEigenValuesAndVectors cd unsized output (isolated child)");
             Eigen e2(*e);
             int rc = isolated([&] { Vector_<CT> v2; Matrix_<CT> m2; e2.getAllEigenValuesAndVectors(v2, m2); return m2.nrow() == n && m2.ncol() == n; });
@@ -762,8 +762,10 @@ template <class T> static void caseEigen(Case& cs) {
     if (!(vals.size() == n && vecs.nrow() == n && vecs.ncol() == n)) { c.viol(cs.key("shape", "getAllEigenValuesAndVectors"), cs.desc().set("values", vals.size()).set("rows", vecs.nrow()).set("cols", vecs.ncol())); return; }
     if (n == 0) { c.require(cs.key("shape", "getAllEigenValuesAndVectors", "empty"), true, [&] { return cs.desc(); }); return; }
     LM L = fromSimTK<CT>(vals), V = fromSimTK<CT>(vecs);
-    if (!finiteOrViol(cs, "getAllEigenValuesAndVectors", L) || !finiteOrViol(cs, "getAllEigenValuesAndVectors", V)) return;
     const std::string seq = vals0.size() ? "after-values-only" : "";
+    if (!seq.empty() && !allFinite(V)) {               // same defect as the wrong vectors below: uninitialized output
+        c.viol(cs.key("eigdefect", "vectors", seq), wit().set("what", "NaN/Inf in eigenvectors")); return; }
+    if (!finiteOrViol(cs, "getAllEigenValuesAndVectors", L) || !finiteOrViol(cs, "getAllEigenValuesAndVectors", V)) return;
     LM AV = mul(A, V);
     for (int j = 0; j < n; ++j) {
         LD nv = fro(col(V, j)), res = 0;
